@@ -41,18 +41,23 @@ Slots(h, c) == h[c].slots
 Obs(h, v) == IF v.t = "slice" THEN {ToString(i) : i \in 1..v.n}
              ELSE IF IsRef(v) THEN DOMAIN Slots(h, v.c) ELSE {}
 
-\* DESIGN 6.0: a nil and an empty slice/map are the same value
+\* Stated equivalences of nil-ness (DESIGN 6.0), per kind of slot:
+\*   slice and map FIELDS   nil and empty are the same value (cog's own copy routines turn one into the
+\*                          other: make(.., 0, n) / append(nil, ..), and no declared field is read otherwise)
+\*   pointers               exact: a non-nil pointer to an empty struct is not nil (Option.Default)
+\*   interface (any) slots  exact: an interface holding an empty slice or map is not a nil interface
+\*                          ("the default is the empty list" vs "no default"); such a value carries v = "boxed"
 Empty(h, v) == \/ v.t = "nil"
                \/ v.t = "slice" /\ v.n = 0
                \/ v.t = "map" /\ DOMAIN Slots(h, v.c) = {}
 
 \* ---- cells reachable from a value (the IR is acyclic: trees, at most DAGs) ----
-\* A slice header of length 0 observes nothing of its backing array, and nothing written through
-\* another header of that array can ever be observed through it: it is the same value as nil
-\* (DESIGN 6.0) and its array is not counted as structure of the value (permissive reading; HeapMC
-\* shows that sharing such an array is the one aliasing pattern no mutation of the copy reveals).
+\* A slice header of length 0 observes nothing of its backing array, but an append through it writes
+\* into the array: an array with capacity is structure of the value whatever the length of the header
+\* (two holders of the same spare capacity overwrite each other's appends).  Only a slice without
+\* any capacity has no array (c = ""): it is the same value as nil (DESIGN 6.0).
 RECURSIVE ReachV(_, _)
-ReachV(h, v) == IF ~IsRef(v) \/ (v.t = "slice" /\ v.n = 0) THEN {}
+ReachV(h, v) == IF ~IsRef(v) \/ v.c = "" THEN {}
                 ELSE {v.c} \cup UNION {ReachV(h, Slots(h, v.c)[l]) : l \in Obs(h, v)}
 
 \* everything beyond the root value can be written through: backing arrays, maps, pointer targets
@@ -63,7 +68,7 @@ MutableReach(h, v) == ReachV(h, v)
 RECURSIVE IsoV(_, _, _)
 IsoV(h, a, b) ==
   IF a.t = "s" THEN b.t = "s" /\ a.v = b.v
-  ELSE IF Empty(h, a) THEN Empty(h, b)
+  ELSE IF Empty(h, a) THEN Empty(h, b) /\ a.v = b.v
   ELSE IF a.t = "slice" THEN /\ b.t = "slice" /\ a.n = b.n
                              /\ \A i \in 1..a.n : IsoV(h, Slots(h, a.c)[ToString(i)], Slots(h, b.c)[ToString(i)])
   ELSE /\ b.t = a.t                                   \* map, ptr, inl: same labels, equal under every label
@@ -86,43 +91,45 @@ ObsSlots(h, v) == IF ~IsRef(v) THEN {}
                   ELSE {<<v.c, l>> : l \in Obs(h, v)} \cup UNION {ObsSlots(h, Slots(h, v.c)[l]) : l \in Obs(h, v)}
 Snapshot(h, v) == {<<p[1], p[2], Slots(h, p[1])[p[2]]>> : p \in ObsSlots(h, v)}
 
-\* ---- mutations of the copy ----
-\* a mutation is [op, c, l, hc, hl]: write slot l of cell c; AppendWithinCap additionally bumps the
-\* length of the slice header stored in slot hl of cell hc
-Mut(op, c, l, hc, hl) == [op |-> op, c |-> c, l |-> l, hc |-> hc, hl |-> hl]
+\* ---- mutations ----
+\* a mutation is [a, op, c, l, hc, hl]: actor a (the root it is performed through: "o" original, "k" copy,
+\* "k2" second copy) writes slot l of cell c; AppendWithinCap additionally bumps the length of the slice
+\* header stored in slot hl of cell hc.  Each actor writes its own marker, so that two actors writing the
+\* same slot is observable.
+Mut(a, op, c, l, hc, hl) == [a |-> a, op |-> op, c |-> c, l |-> l, hc |-> hc, hl |-> hl]
 MutOps == {"SetField", "SetElem", "AppendWithinCap", "MapInsert", "MapDelete", "SetThroughPointer"}
-Marker == Scalar("MUT")
+Marker(a) == Scalar("MUT-" \o a)
 
 Write(h, c, l, x) == [h EXCEPT ![c].slots = (l :> x) @@ @]
 ApplyMut(h, m) ==
   IF m.op = "MapDelete" THEN [h EXCEPT ![m.c].slots = [k \in (DOMAIN @) \ {m.l} |-> @[k]]]
   ELSE IF m.op = "AppendWithinCap"
-       THEN [Write(h, m.c, m.l, Marker) EXCEPT ![m.hc].slots[m.hl].n = @ + 1]
-  ELSE Write(h, m.c, m.l, Marker)
+       THEN [Write(h, m.c, m.l, Marker(m.a)) EXCEPT ![m.hc].slots[m.hl].n = @ + 1]
+  ELSE Write(h, m.c, m.l, Marker(m.a))
 
 RECURSIVE ApplyMuts(_, _)
 ApplyMuts(h, ms) == IF ms = <<>> THEN h ELSE ApplyMuts(ApplyMut(h, Head(ms)), Tail(ms))
 
-\* where the copy k can be mutated in heap h
+\* where a value k can be mutated in heap h (by actor a)
 RECURSIVE InlChain(_, _)          \* k itself and the structs nested in it by value
 InlChain(h, v) == IF v.t # "inl" THEN {}
                   ELSE {v.c} \cup UNION {InlChain(h, Slots(h, v.c)[l]) : l \in DOMAIN Slots(h, v.c)}
 Holders(h, k) == ObsSlots(h, k)   \* every observable slot <<cell, label>> of the copy
 ScalarSlots(h, c) == {l \in DOMAIN Slots(h, c) : Slots(h, c)[l].t = "s"}
 
-Sites(h, k) ==
+Sites(h, k, a) ==
   LET reach == ReachV(h, k)
       ofkind(kd) == {c \in reach : h[c].kind = kd}
   IN
-  UNION {{Mut("SetField", c, l, "", "") : l \in ScalarSlots(h, c)} : c \in InlChain(h, k)}
-  \cup UNION {{Mut("SetThroughPointer", c, l, "", "") : l \in ScalarSlots(h, c)} : c \in ofkind("obj")}
+  UNION {{Mut(a, "SetField", c, l, "", "") : l \in ScalarSlots(h, c)} : c \in InlChain(h, k)}
+  \cup UNION {{Mut(a, "SetThroughPointer", c, l, "", "") : l \in ScalarSlots(h, c)} : c \in ofkind("obj")}
   \cup UNION {LET v == Slots(h, p[1])[p[2]] IN
-              IF v.t # "slice" THEN {}
-              ELSE {Mut("SetElem", v.c, ToString(i), "", "") : i \in {j \in 1..v.n : Slots(h, v.c)[ToString(j)].t = "s"}}
-                   \cup (IF v.n < h[v.c].cap THEN {Mut("AppendWithinCap", v.c, ToString(v.n + 1), p[1], p[2])} ELSE {})
+              IF v.t # "slice" \/ v.c = "" THEN {}
+              ELSE {Mut(a, "SetElem", v.c, ToString(i), "", "") : i \in {j \in 1..v.n : Slots(h, v.c)[ToString(j)].t = "s"}}
+                   \cup (IF v.n < h[v.c].cap THEN {Mut(a, "AppendWithinCap", v.c, ToString(v.n + 1), p[1], p[2])} ELSE {})
               : p \in Holders(h, k)}
-  \cup UNION {{Mut("SetElem", c, l, "", "") : l \in ScalarSlots(h, c)}
-              \cup {Mut("MapDelete", c, l, "", "") : l \in DOMAIN Slots(h, c)}
-              \cup (IF "new" \in DOMAIN Slots(h, c) THEN {} ELSE {Mut("MapInsert", c, "new", "", "")})
+  \cup UNION {{Mut(a, "SetElem", c, l, "", "") : l \in ScalarSlots(h, c)}
+              \cup {Mut(a, "MapDelete", c, l, "", "") : l \in DOMAIN Slots(h, c)}
+              \cup (IF "new" \in DOMAIN Slots(h, c) THEN {} ELSE {Mut(a, "MapInsert", c, "new", "", "")})
               : c \in ofkind("map")}
 =============================================================================
